@@ -120,10 +120,10 @@ Proof.
   destruct (scan_app b 1%nat false false x E) as [_ Hr]. exact Hr.
 Qed.
 
-Lemma p_name_spec n l : good_nameb n = true -> nic l -> p_name (n ++ l) = Some (n, l).
+Lemma p_name0_spec n l : good_nameb n = true -> nic l -> p_name0 (n ++ l) = Some (n, l).
 Proof.
   intros H Hl. destruct (good_name_inv n H) as (c & i & a & -> & Hc & Hi & Hk & Ha & Hargs).
-  unfold p_name, bnd. cbn [app]. rewrite <- app_assoc.
+  unfold p_name0, bnd. cbn [app]. rewrite <- app_assoc.
   rewrite (p_ident_raw c i (a ++ l) Hc Hi); [|destruct a; [now apply nic_nid | exact Ha]].
   rewrite Hk. destruct Hargs as [-> | (b & -> & Hs)].
   - cbn [app]. rewrite (nic_args l Hl). unfold ret. now rewrite app_nil_r.
@@ -131,7 +131,7 @@ Proof.
 Qed.
 Lemma p_ident_blank l : p_ident (32 :: l) = p_ident l.
 Proof. reflexivity. Qed.
-Lemma p_name_blank l : p_name (32 :: l) = p_name l.
+Lemma p_name0_blank l : p_name0 (32 :: l) = p_name0 l.
 Proof. reflexivity. Qed.
 
 Lemma good_name_hd n : good_nameb n = true -> exists c r, n = c :: r /\ is_name_start c = true.
@@ -150,21 +150,21 @@ Qed.
 Lemma s_not_eq : s_not = kw_not ++ [32].
 Proof. reflexivity. Qed.
 
-Lemma p_lit_spec nm z l : good_nameb (name_of nm (Z.abs z)) = true -> nic l ->
-  p_lit (print_lit nm z ++ l) = Some ((z <? 0, name_of nm (Z.abs z)), l).
+Lemma p_lit0_spec nm z l : good_nameb (name_of nm (Z.abs z)) = true -> nic l ->
+  p_lit0 (print_lit nm z ++ l) = Some ((z <? 0, name_of nm (Z.abs z)), l).
 Proof.
   intros H Hl. unfold print_lit. destruct (z <? 0).
-  - rewrite s_not_eq. unfold kw_not. cbn [app]. unfold p_lit, bnd.
+  - rewrite s_not_eq. unfold kw_not. cbn [app]. unfold p_lit0, bnd.
     pose proof (p_ident_raw 110 [111; 116] (32 :: name_of nm (Z.abs z) ++ l) eq_refl eq_refl eq_refl) as E.
     cbn [app] in E. rewrite E. clear E.
     change (list_eqb [110; 111; 116] kw_not) with true. cbv beta iota.
-    rewrite p_name_blank, (p_name_spec _ l H Hl). reflexivity.
-  - cbn [app]. pose proof (p_name_spec _ l H Hl) as E. unfold p_name, bnd in E. unfold p_lit, bnd.
+    rewrite p_name0_blank, (p_name0_spec _ l H Hl). reflexivity.
+  - cbn [app]. pose proof (p_name0_spec _ l H Hl) as E. unfold p_name0, bnd in E. unfold p_lit0, bnd.
     destruct (p_ident (name_of nm (Z.abs z) ++ l)) as [[n r]|]; [|discriminate].
     destruct (list_eqb n kw_not); [discriminate|]. destruct (p_args r) as [[a r']|]; [|discriminate].
     unfold ret in *. inversion E; subst. reflexivity.
 Qed.
-Lemma p_lit_blank l : p_lit (32 :: l) = p_lit l.
+Lemma p_lit0_blank l : p_lit0 (32 :: l) = p_lit0 l.
 Proof. reflexivity. Qed.
 
 Lemma print_lit_nows nm z l : good_nameb (name_of nm (Z.abs z)) = true -> nows (print_lit nm z ++ l).
